@@ -19,7 +19,11 @@ var c17Project = map[string]string{
 	"src/img.png": "PNGDATA",
 	"src/c.css":   "a { background: url(./img.png) }\n",
 	"src/A2.js":   "console.log('case variant')\n",
-	"lnk":         "SYMLINK:src",
+	// two pairs of entry points whose outputs can collide: same base name in two directories, same name with two extensions
+	"src/sub2/a.js": "console.log('the other a')\n",
+	"src/u.ts":      "export const u: number = 1\n",
+	"src/u.js":      "export const u = 'js'\n",
+	"lnk":           "SYMLINK:src",
 }
 
 type c17Opts struct {
@@ -96,7 +100,7 @@ func c17Matrix(tier string) []c17Opts {
 	assetNames := []string{"", "[name]"}
 	loaders := []api.Loader{api.LoaderFile, api.LoaderCopy}
 	outbases := []string{"", "src", "."}
-	entrySets := [][]string{{"src/a.js"}, {"src/a.js", "src/c.css"}, {"src/a.js", "src/img.png"}, {"lnk/a.js"}, {"src/a.js", "src/A2.js"}}
+	entrySets := [][]string{{"src/a.js"}, {"src/a.js", "src/c.css"}, {"src/a.js", "src/img.png"}, {"lnk/a.js"}, {"src/a.js", "src/A2.js"}, {"src/a.js", "src/sub2/a.js"}, {"src/u.ts", "src/u.js"}}
 	for _, od := range outdirs {
 		for _, en := range entryNames {
 			for _, oe := range outExts {
